@@ -261,6 +261,11 @@ for _p, _t in _EXTRA6.items():
 
 # Seventh round (DESIGN §8 round 7).
 _EXTRA7 = {
+ "C12": " Seventh round: (R-PAR-5, engine E11) the task ranges tile the input: RecordRange read path by path as polynomials over (task index, recordLen, Number, recordLen/Number) gives start(0) = 0, end(i) = start(i+1), end(last) = recordLen, empty ranges only beyond the last row; every consumer walks exactly [start, end); every task function is started for each index 0 … Number−1 — the rows the workers handle are a partition of the input for every --cpu.",
+ "C13": " Seventh round: (R-PAR-5) the workers' row ranges are disjoint (premise of R-PAR-1's index-partitioned writes).",
+ "C03": " Seventh round: (R-PAR-5) the parallel paths of WHERE / JOIN hand every row to exactly one worker.",
+ "C04": " Seventh round: (R-PAR-5) the parallel key computation of GROUP BY hands every row to exactly one worker.",
+ "C17": " Seventh round: (R-PAR-5) every partition is handed to exactly one worker of Analyze.",
  "C16": " Seventh round: (R-CUR-9) FETCH RELATIVE computes index + number only on paths whose branch conditions bound the sum on both sides (it cannot wrap around) — genuine defect repaired (be64c59); R-CUR-4 accepts a saturated move only where the branch condition proves that index + number lies on or beyond the boundary that is stored instead.",
 }
 for _p, _t in _EXTRA7.items():
